@@ -404,7 +404,7 @@ JANET_CORE_FN(cfun_net_sockaddr,
     janet_arity(argc, 2, 4);
     int socktype = janet_get_sockettype(argv, argc, 2);
     int is_unix = 0;
-    int make_arr = (argc >= 3 && janet_truthy(argv[3]));
+    int make_arr = (argc >= 4 && janet_truthy(argv[3]));
     struct addrinfo *ai = janet_get_addrinfo(argv, 0, socktype, 0, &is_unix);
 #ifndef JANET_WINDOWS
     /* no unix domain socket support on windows yet */
